@@ -387,8 +387,11 @@ def run_impl(ctx, exe, cases, per_case_timeout=60):
     start = 0
     while start < len(cases):
         inp = "".join(case_line(c) + "\n" for c in cases[start:])
-        r = ctx.run(exe, inp, timeout=min(1500, 30 + per_case_timeout * (len(cases) - start)),
-                    env={"OMP_NUM_THREADS": "2"})
+        try:
+            r = ctx.run(exe, inp, timeout=min(1500, 30 + per_case_timeout * (len(cases) - start)),
+                        env={"OMP_NUM_THREADS": "2"})
+        except OSError as ex:
+            raise vlib.BuildError("harness binary cannot be run: %s" % ex)
         cur = None
         for line in r.out.splitlines():
             w = line.split()
@@ -441,7 +444,10 @@ def run_impl(ctx, exe, cases, per_case_timeout=60):
 def run_model_lines(ctx, mexe, lines, timeout=1500):
     if not lines:
         return []
-    r = ctx.run(mexe, "".join(l + "\n" for l in lines), timeout=timeout)
+    try:
+        r = ctx.run(mexe, "".join(l + "\n" for l in lines), timeout=timeout)
+    except OSError as ex:
+        raise vlib.BuildError("model driver cannot be run: %s" % ex)
     out = r.out.splitlines()
     if r.rc != 0 or len(out) != len(lines):
         raise vlib.BuildError("model driver failed: rc=%s out=%d/%d %s" % (r.rc, len(out), len(lines), r.err[-500:]))
@@ -1122,6 +1128,20 @@ def run(ctx):
         mexe = ctx.extract()
         t2 = ctx.elapsed()
         exe = fut.result()
+        # private copies: a concurrent run of this same check rebuilds build/C08/extract and prunes the cache
+        import os
+        import shutil
+        priv = []
+        for src, tag in ((mexe, "model"), (exe, "harness")):
+            dst = os.path.join(ctx.build, "%s_%d.exe" % (tag, os.getpid()))
+            try:
+                shutil.copy2(src, dst)
+                priv.append(dst)
+            except OSError as ex:
+                raise vlib.BuildError("cannot copy %s: %s" % (src, ex))
+        mexe, exe = priv
+        import atexit
+        atexit.register(lambda: [os.remove(p_) for p_ in priv if os.path.exists(p_)])
         ctx.note("wall: tables+proofs %.0fs (includes waiting for the shared coq lock), extraction %.0fs, "
                  "further wait for the C++ build %.0fs" % (t1 - t0, t2 - t1, ctx.elapsed() - t2))
     stats = Stats()
